@@ -206,11 +206,14 @@ def check_spend(case, ctx):
     # DISCOURAGE flag is off, the debugger declines it with 'declared version=... not supported' / 'expected 22 or 34 byte script'. Declining at
     # set-up is accepted; a session that is set up and runs is still compared.
     wp = V.witness_program(out['spk'])
+    wrapped = False
     if wp is None and V.is_p2sh(out['spk']):
         ops = R.decode(vin['script'])
         if ops and ops[-1] is not None and ops[-1][1] is not None:
             wp = V.witness_program(ops[-1][1])
-    if wp is not None and (wp[0] >= 2 or (wp[0] == 1 and len(wp[1]) != 32)) and tv and tv.startswith('refused:configure'):
+            wrapped = True
+    # (a P2SH-wrapped version 1 program of any length is such an unknown program too: BIP341 applies to native outputs only)
+    if wp is not None and (wp[0] >= 2 or (wp[0] == 1 and (len(wp[1]) != 32 or wrapped))) and tv and tv.startswith('refused:configure'):
         ctx.count('unsupported-witness-program-declined')
         return
     # ---- disagreement: known classes (narrow signatures), else violation
